@@ -27,8 +27,9 @@ const sec = int64(time.Second)
 
 type c02Action struct {
 	at   int64  // virtual instant
-	kind string // run, runif, cancel, cancelall, ctx, sched, exists
+	kind string // run, runif, cancel, cancelif, cancelall, ctx, sched, exists
 	name string
+	dead bool // run / runif: the request is made with a context of the caller's that is already cancelled
 	// results
 	err  error
 	done bool
@@ -98,6 +99,15 @@ func c02Units(tier string) []hx.Unit {
 	scns = append(scns, c02Scn{name: "S5/periodic/dur3/run@T+1", periodic: true, jobDur: 3 * sec, T: T, horizon: 3*T + 5*sec, actions: []c02Action{{at: T + sec, kind: "run", name: "J"}}})
 	scns = append(scns, c02Scn{name: "S5/periodic/dur3/cancel@T+1", periodic: true, jobDur: 3 * sec, T: T, horizon: 3*T + 5*sec, actions: []c02Action{{at: T + sec, kind: "cancel", name: "J"}}, reschedAt: 2*T + sec})
 	scns = append(scns, c02Scn{name: "S5/periodic/cancel@T/2", periodic: true, T: T, horizon: 3*T + 2*sec, actions: []c02Action{{at: T / 2, kind: "cancel", name: "J"}}})
+	// cancelling by the other two entry points while an instance of the periodic job is running / while an early run is under way
+	scns = append(scns, c02Scn{name: "S5/periodic/dur3/cancelif@T+1", periodic: true, jobDur: 3 * sec, T: T, horizon: 3*T + 5*sec, actions: []c02Action{{at: T + sec, kind: "cancelif", name: "J"}}, reschedAt: 2*T + sec})
+	scns = append(scns, c02Scn{name: "S5/periodic/dur3/cancelall@T+1", periodic: true, jobDur: 3 * sec, T: T, horizon: 3*T + 5*sec, actions: []c02Action{{at: T + sec, kind: "cancelall", name: "J"}}, reschedAt: 2*T + sec})
+	scns = append(scns, c02Scn{name: "S5/periodic/dur3/run@T/2,cancelif@T/2+1", periodic: true, jobDur: 3 * sec, T: T, horizon: 3*T + 5*sec,
+		actions: []c02Action{{at: T / 2, kind: "run", name: "J"}, {at: T/2 + sec, kind: "cancelif", name: "J"}}, reschedAt: 2*T + sec})
+	// a run request made with a context of the caller's that is already cancelled (the job's own context is alive)
+	scns = append(scns, c02Scn{name: "S1d/run(dead ctx)@-1", T: T, actions: []c02Action{{at: T - sec, kind: "run", name: "J", dead: true}}, reschedAt: T + 3*sec})
+	scns = append(scns, c02Scn{name: "S1d/runif(dead ctx)@-1", T: T, actions: []c02Action{{at: T - sec, kind: "runif", name: "J", dead: true}}, reschedAt: T + 3*sec})
+	scns = append(scns, c02Scn{name: "S5/periodic/run(dead ctx)@T/2", periodic: true, T: T, horizon: 3*T + 2*sec, actions: []c02Action{{at: T / 2, kind: "run", name: "J", dead: true}}})
 	scns = append(scns, c02Scn{name: "S5/periodic/dur12", periodic: true, jobDur: 12 * sec, T: T, horizon: 4*T + 5*sec})
 	// S6: name re-use
 	scns = append(scns, c02Scn{name: "S6/cancel@-2,sched@-2", T: T, actions: []c02Action{{at: T - 2*sec, kind: "cancel", name: "J"}, {at: T - 2*sec, kind: "sched", name: "J"}}})
@@ -185,13 +195,22 @@ func c02Body(sc *c02Scn, st *c02State) {
 		a := &st.acts[i]
 		mc.Go(func() {
 			mc.Sleep(a.at - mc.Now())
+			rctx := ctx
+			if a.dead {
+				// the caller's own context, not the one the job was scheduled under
+				var rcancel context.CancelFunc
+				rctx, rcancel = mcontext.WithCancel(context.Background())
+				rcancel()
+			}
 			switch a.kind {
 			case "run":
-				a.err = svc.RunJob(ctx, a.name)
+				a.err = svc.RunJob(rctx, a.name)
 			case "runif":
-				svc.RunJobIfExists(ctx, a.name)
+				svc.RunJobIfExists(rctx, a.name)
 			case "cancel":
 				a.err = svc.CancelJob(ctx, a.name)
+			case "cancelif":
+				svc.CancelJobIfExists(ctx, a.name)
 			case "cancelall":
 				svc.CancelJobs(ctx, a.name)
 			case "ctx":
@@ -251,7 +270,7 @@ func c02Check(sc *c02Scn, st *c02State, r *mc.Result) mc.Verdict {
 				cancelOK = true
 				cancelAt = a.at
 			}
-		case "cancelall":
+		case "cancelall", "cancelif":
 			cancelOK = true // may or may not have hit the job
 			cancelAt = a.at
 		case "ctx":
